@@ -17,6 +17,10 @@ claimed = {
  "C17": ("hijacking request followed by 0-9000 tail bytes arriving in the same segment, partly buffered or later, after 0-2 ordinary requests; ReduceMemoryUsage, HijackSetNoResponse, KeepHijackedConns; response-before-handover on the tap, tail byte equality, per-connection foreign-operation counter on the simulated socket", "6/C17"),
  "C04": ("1-5 concurrent callers x 1-3 calls over HostClient/Client/PipelineClient (MaxConns 1-3) against a scripted id-echo server (CL/chunked/close framing, delays, delayed body tails that are themselves well-formed responses, resets mid-response, 100-continue, Connection: close), Do/DoTimeout/DoDeadline, streamed bodies read partially and closed; id(header)=id(body)=id(request) oracle", "6/C04"),
  "C18": ("2-8 concurrent callers x 1-3 calls on a HostClient with MaxConns 1-3, with and without MaxConnWaitTimeout, LIFO/FIFO, short MaxIdleConnDuration/MaxConnDuration, a scripted dialer (refuse, hang, slow) and a server that closes, resets or answers slowly; live-or-dialling connection monitor, own-response oracle, deadline bound, ConnsCount and open sockets back to zero after idle expiry on the fake clock", "6/C18"),
+ "C19": ("per-attempt fault sequences (dial error, write error, EOF before the response, read timeout, reset mid-response, oversized body) x methods x body kinds x MaxIdemponentCallAttempts x RetryIf/RetryIfErr variants x request timeouts; transmissions counted at the scripted server; thorough tier enumerates all sequences of length 6 over the 7 kinds by run index, 12 cases per run", "6/C19"),
+ "C20": ("redirect chains (301/302/303/307/308; absolute, scheme-relative, host-relative, relative, userinfo, upper-case, other-port Locations) over a simulated network of 8 hosts (trusted, sub-domains, look-alike prefixes and suffixes, IPv4) with per-host header logs, keep-alive or close, EOF on first attempt so retries interleave with redirects", "6/C20"),
+ "C21": ("mixed http/https histories for the same host names through Client, HostClient (matching and mismatching IsTLS) and LBClient, redirects across schemes, minutes-long gaps so the per-host client map is cleaned in between; real crypto/tls over the simulated transport; inside-TLS server logs and a raw tap on every connection", "6/C21"),
+ "C38": ("2-10 callers using DoDeadline/DoTimeout/Do on a PipelineClient with MaxPendingRequests 1-4 and MaxConns 1-2 against servers that answer, stall, close, reset or refuse; return-time bound on the simulated clock, overflowed requests never on the wire, PendingRequests back to zero", "6/C38"),
  "C33": ("PipeConns stream equality and Close semantics, InmemoryListener Dial/Accept/Close pairing, under seeded interleavings of writers, readers, deadlines and closers at every channel/select/mutex operation", "6/C33"),
 }
 na = {
